@@ -239,6 +239,9 @@ var model = porcupine.Model{
 				return output.(string) == "panic", s
 			}
 			v := int(code[2] - '0')
+			if code[1] == 'a' || code[1] == 'b' {
+				v, _ = strconv.Atoi(code[2:]) // the int parameters also take numbers of several digits
+			}
 			switch code[1] {
 			case 'a':
 				s.a = v
@@ -607,35 +610,41 @@ func run(c *core.Ctx) {
 		alpha   []string
 		threads int
 		maxLen  int
+		progs   []Program // set: the programs of the family, listed instead of enumerated
 	}
 	fams := []family{
-		{"instance: 2 clients x <=2 ops, 8-op alphabet", "instance", alphabet, 2, 2},
-		{"instance: 3 clients x 1 op, 8-op alphabet", "instance", alphabet, 3, 1},
-		{"instance: slice-typed parameter, 2 clients x <=2 ops", "instance", sliceAlphabet, 2, 2},
-		{"instance: model version polled, 2 clients x <=2 ops", "instance", []string{"Ua1", "V", "A1", "Ub1"}, 2, 2},
-		{"server: 2 clients x <=2 ops, 5-op alphabet", "server", alphabet[:5], 2, 2},
-		{"server: slice-typed parameter, 2 clients x <=2 ops", "server", sliceAlphabet, 2, 2},
-		{"server+autosave: 2 clients x <=2 ops, 4-op alphabet", "server+autosave", alphabet[:4], 2, 2},
-		{"instance: float parameter with close values, 2 clients x <=2 ops", "instance", floatAlphabet, 2, 2},
-		{"instance: a state the producer cannot render, 2 clients x <=2 ops", "instance", panicAlphabet, 2, 2},
-		{"server: a state the producer cannot render, 2 clients x <=2 ops", "server", panicAlphabet, 2, 2},
-		{"instance: an update addressed to no parameter, 2 clients x <=2 ops", "instance", strayAlphabet, 2, 2},
-		{"server: an update addressed to no parameter, 2 clients x <=2 ops", "server", strayAlphabet, 2, 2},
+		{"instance: 2 clients x <=2 ops, 8-op alphabet", "instance", alphabet, 2, 2, nil},
+		{"instance: 3 clients x 1 op, 8-op alphabet", "instance", alphabet, 3, 1, nil},
+		{"instance: slice-typed parameter, 2 clients x <=2 ops", "instance", sliceAlphabet, 2, 2, nil},
+		{"instance: model version polled, 2 clients x <=2 ops", "instance", []string{"Ua1", "V", "A1", "Ub1"}, 2, 2, nil},
+		{"server: 2 clients x <=2 ops, 5-op alphabet", "server", alphabet[:5], 2, 2, nil},
+		{"server: slice-typed parameter, 2 clients x <=2 ops", "server", sliceAlphabet, 2, 2, nil},
+		{"server+autosave: 2 clients x <=2 ops, 4-op alphabet", "server+autosave", alphabet[:4], 2, 2, nil},
+		{"instance: float parameter with close values, 2 clients x <=2 ops", "instance", floatAlphabet, 2, 2, nil},
+		{"instance: a state the producer cannot render, 2 clients x <=2 ops", "instance", panicAlphabet, 2, 2, nil},
+		{"server: a state the producer cannot render, 2 clients x <=2 ops", "server", panicAlphabet, 2, 2, nil},
+		{"instance: an update addressed to no parameter, 2 clients x <=2 ops", "instance", strayAlphabet, 2, 2, nil},
+		{"server: an update addressed to no parameter, 2 clients x <=2 ops", "server", strayAlphabet, 2, 2, nil},
+		{name: "instance: one client, two states of several-digit values, artifact after each", via: "instance", progs: twoStatePrograms()},
 	}
 	if c.Thorough() {
 		fams = append(fams,
-			family{"instance: 3 clients x <=2 ops, 5-op alphabet", "instance", alphabet[:5], 3, 2},
-			family{"instance: slice-typed parameter, 3 clients x <=2 ops", "instance", sliceAlphabet[:3], 3, 2},
-			family{"instance: slice + int parameters, 2 clients x <=2 ops", "instance", []string{"Uc1", "A3", "Ua1", "A1", "Uc2"}, 2, 2},
-			family{"instance: 2 clients x <=3 ops, 5-op alphabet", "instance", alphabet[:5], 2, 3},
-			family{"server: 3 clients x 1 op, 8-op alphabet", "server", alphabet, 3, 1},
-			family{"server+autosave: 3 clients x 1 op, 8-op alphabet", "server+autosave", alphabet, 3, 1},
-			family{"server+autosave: 2 clients x <=2 ops, 8-op alphabet", "server+autosave", alphabet, 2, 2},
+			family{name: "instance: 3 clients x <=2 ops, 5-op alphabet", via: "instance", alpha: alphabet[:5], threads: 3, maxLen: 2},
+			family{name: "instance: slice-typed parameter, 3 clients x <=2 ops", via: "instance", alpha: sliceAlphabet[:3], threads: 3, maxLen: 2},
+			family{name: "instance: slice + int parameters, 2 clients x <=2 ops", via: "instance", alpha: []string{"Uc1", "A3", "Ua1", "A1", "Uc2"}, threads: 2, maxLen: 2},
+			family{name: "instance: 2 clients x <=3 ops, 5-op alphabet", via: "instance", alpha: alphabet[:5], threads: 2, maxLen: 3},
+			family{name: "server: 3 clients x 1 op, 8-op alphabet", via: "server", alpha: alphabet, threads: 3, maxLen: 1},
+			family{name: "server+autosave: 3 clients x 1 op, 8-op alphabet", via: "server+autosave", alpha: alphabet, threads: 3, maxLen: 1},
+			family{name: "server+autosave: 2 clients x <=2 ops, 8-op alphabet", via: "server+autosave", alpha: alphabet, threads: 2, maxLen: 2},
+			family{name: "server: one client, two states of several-digit values, artifact after each", via: "server", progs: twoStatePrograms()},
 		)
 	}
 	vsched.SetReducedPoints(true) // points before every acquiring operation only (after the self-test)
 	for _, f := range fams {
-		ps := programs(f.alpha, f.threads, f.maxLen)
+		ps := f.progs
+		if ps == nil {
+			ps = programs(f.alpha, f.threads, f.maxLen)
+		}
 		c.Bound(f.name, map[string]any{"programs": len(ps), "preemption_bound": "unbounded (all interleavings)"})
 		for _, p := range ps {
 			if !c.Next() {
@@ -669,3 +678,35 @@ func replay(c *core.Ctx) {
 		os.Remove(autosaveFile)
 	}
 }
+
+// several-digit values: the menu is chosen so that different states have the same digits when their
+// values are written one after the other (1,23 / 12,3; 1,10 / 11,0; 2,11 / 21,1): a key built from
+// the parameters' texts without a separator takes them for one state.
+var digitMenu = []int{1, 12, 23, 3, 11, 0, 10, 21, 2}
+
+// twoStatePrograms: one client sets a and b, reads artifact p1 (or p2), sets a and b again, reads again.
+func twoStatePrograms() []Program {
+	var out []Program
+	for _, a1 := range digitMenu {
+		for _, b1 := range digitMenu {
+			for _, a2 := range digitMenu {
+				for _, b2 := range digitMenu {
+					if a1 == a2 && b1 == b2 {
+						continue
+					}
+					// every pair of states whose texts collide, and a third of the others
+					if fmt.Sprintf("%d%d", a1, b1) != fmt.Sprintf("%d%d", a2, b2) && (a1+b1+a2+b2)%3 != 0 {
+						continue
+					}
+					art := "A1"
+					if (a1+b2)%2 == 1 {
+						art = "A2"
+					}
+					out = append(out, Program{{fmt.Sprint("Ua", a1), fmt.Sprint("Ub", b1), art, fmt.Sprint("Ua", a2), fmt.Sprint("Ub", b2), art}})
+				}
+			}
+		}
+	}
+	return out
+}
+
